@@ -13,6 +13,7 @@ package throttle
 // past or future, count against the newest bucket).
 
 //@ func rebuildBuckets
+//@   option check-nil yes
 //@   ghost ncall int = 0
 //@   ghost cur int = 0
 //@   ghost tid int = 0
@@ -61,16 +62,19 @@ package throttle
 //@     ensures b.b[idx] == 0
 
 //@ func (*simpleBuckets).add
+//@   option check-nil yes
 //@   requires 0 <= index && index < len(b.b)
 //@   modifies b.b[index]
 //@   ensures b.b[index] == old(b.b[index]) + value
 
 //@ func (*simpleBuckets).get
+//@   option check-nil yes
 //@   requires 0 <= index && index < len(b.b)
 //@   pure
 //@   ensures result == b.b[index]
 
 //@ func (*simpleBuckets).reset
+//@   option check-nil yes
 //@   requires 0 <= index && index < len(b.b)
 //@   modifies b.b[index]
 //@   ensures b.b[index] == 0
@@ -86,6 +90,7 @@ package throttle
 // A second add (for instance un-counting a refused event) is a violation.
 
 //@ func (*inMemoryLimiter).isAllowed
+//@   option check-nil yes
 //@   option allow-exit yes
 //@   ghost nadd int = 0
 //@   ghost val int = 0
@@ -165,6 +170,7 @@ package throttle
 // moves the window.
 
 //@ func (*inMemoryLimiter).rebuildBuckets
+//@   option check-nil yes
 //@   preserves inMemoryLimiter, Event
 //@   ghost gw int = 0
 //@   ghost ge int = 0
@@ -256,16 +262,19 @@ package throttle
 // C16, distributed path.
 
 //@ func (*distributedBuckets).add
+//@   option check-nil yes
 //@   requires 0 <= index && index < len(b.b) && 0 <= distrIndex && distrIndex < len(b.b[index])
 //@   modifies b.b[index][distrIndex]
 //@   ensures b.b[index][distrIndex] == old(b.b[index][distrIndex]) + value
 
 //@ func (*distributedBuckets).get
+//@   option check-nil yes
 //@   requires 0 <= index && index < len(b.b) && 0 <= distrIndex && distrIndex < len(b.b[index])
 //@   pure
 //@   ensures result == b.b[index][distrIndex]
 
 //@ func (*distributedBuckets).reset
+//@   option check-nil yes
 //@   requires 0 <= index && index < len(b.b)
 //@   modifies b.b[index][:]
 //@   ensures forall k :: 0 <= k && k < len(b.b[index]) ==> b.b[index][k] == 0
@@ -273,6 +282,7 @@ package throttle
 //@   loop 1 invariant forall k :: 0 <= k && k <= rangeindex ==> b.b[index][k] == 0
 
 //@ func (*distributedBuckets).isEmpty
+//@   option check-nil yes
 //@   requires 0 <= index && index < len(b.b)
 //@   pure
 //@   ensures result == (forall k :: 0 <= k && k < len(b.b[index]) ==> b.b[index][k] <= 0)
@@ -280,6 +290,7 @@ package throttle
 //@   loop 1 invariant forall k :: 0 <= k && k <= rangeindex ==> b.b[index][k] <= 0
 
 //@ func (*distributedBuckets).getDistrCount
+//@   option check-nil yes
 //@   pure
 //@   ensures len(b.b) > 0 ==> result == len(b.b[0])
 //@   ensures len(b.b) == 0 ==> result == 0
@@ -322,6 +333,7 @@ package throttle
 // established by parseLimitDistribution (oracle on its map updates) and assumed here.
 
 //@ func (*limitDistributions).getLimit
+//@   option check-nil yes
 //@   ghost gok bool = false
 //@   ghost gv int = 0
 //@   ghost gkey bool = true
@@ -455,12 +467,14 @@ package throttle
 //@   ensures forall k :: 0 <= k && k < size ==> result[k] == 0
 
 //@ func newSimpleBuckets
+//@   option check-nil yes
 //@   requires count >= 0
 //@   pure
 //@   ensures result != nil && fresh(result) && len(result.b) == count && result.count == count && result.interval == interval && result.minID == 0 && result.maxID == 0
 //@   ensures forall k :: 0 <= k && k < count ==> result.b[k] == 0
 
 //@ func newDistributedBuckets
+//@   option check-nil yes
 //@   requires count >= 0 && distributionSize >= 0
 //@   pure
 //@   ensures result != nil && fresh(result) && len(result.b) == count && result.count == count && result.interval == interval && result.minID == 0 && result.maxID == 0
@@ -471,10 +485,12 @@ package throttle
 //@   loop 1 invariant forall k, d :: 0 <= k && k < i && 0 <= d && d < distributionSize ==> db.b[k][d] == 0
 
 //@ func (*limitDistributions).size
+//@   option check-nil yes
 //@   pure
 //@   ensures result == len(ld.distributions)
 
 //@ func (*limitDistributions).isEnabled
+//@   option check-nil yes
 //@   pure
 //@   ensures result == (ld.enabled && len(ld.distributions) > 0)
 
@@ -503,6 +519,7 @@ package throttle
 // the same default share and the same enabled flag.
 
 //@ func (*limitDistributions).copy
+//@   option check-nil yes
 //@   pure
 //@   ensures len(result.distributions) == len(ld.distributions) && fresh(result.distributions)
 //@   ensures forall k :: 0 <= k && k < len(ld.distributions) ==> result.distributions[k].limit == ld.distributions[k].limit
@@ -518,6 +535,7 @@ package throttle
 // there are shares - its own copy of them.
 
 //@ func newInMemoryLimiter
+//@   option check-nil yes
 //@   ghost nb int = 0
 //@   ghost gpay int = 0
 //@   ghost ncp int = 0
@@ -543,6 +561,7 @@ package throttle
 // and clock; the backend decides the kind of limiter and nothing else does.
 
 //@ func (*limitersMap).newLimiter
+//@   option check-nil yes
 //@   option allow-exit yes
 //@   ghost nmem int = 0
 //@   ghost nred int = 0
@@ -566,6 +585,7 @@ package throttle
 // configured field, and is enabled.
 
 //@ func (LimitDistributionConfig).toInternal
+//@   option check-nil yes
 //@   pure
 //@   ensures result.Field == c.Field && result.Enabled
 //@   ensures len(result.Ratios) == len(c.Ratios)
@@ -582,6 +602,7 @@ package throttle
 // float -> int conversion are outside the verifier's arithmetic.
 
 //@ func parseLimitDistribution
+//@   option check-nil yes
 //@   pure
 //@   ensures c.Field == "" ==> result1 == nil && len(result0.distributions) == 0 && !result0.enabled
 //@   ensures c.Field != "" && len(c.Ratios) == 0 ==> result1 == nil && len(result0.distributions) == 0 && result0.enabled == c.Enabled
@@ -605,6 +626,7 @@ package throttle
 //@     pure
 
 //@ func (*limitDistributionCfg).isEmpty
+//@   option check-nil yes
 //@   pure
 //@   ensures result == (c.Field == "" || len(c.Ratios) == 0)
 
@@ -616,6 +638,7 @@ package throttle
 // width always is len(distributions) + 1 (what getDistrData's slots rely on).
 
 //@ func (*inMemoryLimiter).updateDistribution
+//@   option check-nil yes
 //@   ghost gl int = 0
 //@   ghost ngl int = 0
 //@   ghost npar int = 0
@@ -708,6 +731,7 @@ package throttle
 // answer is the answer.
 
 //@ func (*distributedBuckets).rebuild
+//@   option check-nil yes
 //@   ghost nrb int = 0
 //@   ghost gr int = 0
 //@   requires b != nil && b.count >= 1 && (b.minID != 0 ==> b.maxID == b.minID + b.count - 1)
@@ -720,6 +744,7 @@ package throttle
 //@     set gr := r
 
 //@ func (*simpleBuckets).rebuild
+//@   option check-nil yes
 //@   ghost nrb int = 0
 //@   ghost gr int = 0
 //@   requires b != nil && b.count >= 1 && (b.minID != 0 ==> b.maxID == b.minID + b.count - 1)
